@@ -56,13 +56,14 @@ type State struct {
 	Dirty  map[string]bool     // arrays written on this path (names with prefix H:/M:/G:)
 	DirtyCells map[*Cell]bool
 	retSite string
+	topFrame *Frame
 	pcSet  map[string]bool
 	Each   []*EachFact // element invariants of slices, instantiated at every element load
 	Defs   map[string]bool     // recursive spec-function applications already unfolded
 }
 
 func (s *State) clone() *State {
-	n := &State{Alloc: s.Alloc, retSite: s.retSite}
+	n := &State{Alloc: s.Alloc, retSite: s.retSite, topFrame: s.topFrame}
 	n.Heap = make(map[string]*Term, len(s.Heap))
 	for k, v := range s.Heap {
 		n.Heap[k] = v
